@@ -142,10 +142,12 @@ def run_case(rng, idx, tier):
         return rec
     # --- element-wise oracle
     flat = kind == "disk"
+    truth = [None] * len(P)
     for i, p in enumerate(P):
         dist = o.dist(p)
         if dist >= TOL * L:
             ev["points_judged_outside"] += 1
+            truth[i] = False
             if res[i]:
                 viol.append({"key": {"shape": kind, "kind": "outside-point-reported-inside"}, "err": float(dist / L),
                              "msg": "points_in_%s: point %s is %.3g*L outside but reported contained" % (kind, p.tolist(), dist / L)})
@@ -156,6 +158,7 @@ def run_case(rng, idx, tier):
             inside_ok = o.depth(p) >= TOL * L
         if inside_ok:
             ev["points_judged_inside"] += 1
+            truth[i] = True
             if not res[i]:
                 dd = 0.0 if flat else o.depth(p) / L
                 viol.append({"key": {"shape": kind, "kind": "inside-point-reported-outside", "exact_disk": exact_disk}, "err": float(dd),
@@ -176,6 +179,19 @@ def run_case(rng, idx, tier):
     except Exception as e:  # noqa: BLE001
         viol.append({"key": {"shape": kind, "kind": "exception", "exc": type(e).__name__, "where": "batch"}, "err": None,
                      "msg": "points_in_%s raised %s on a permuted/split batch" % (kind, type(e).__name__)})
+    # --- batches of one point (judged against the oracle's truth, so points in the undecided band are skipped)
+    decided = [i for i in range(len(P)) if truth[i] is not None]
+    for i in (rng.choice(decided, size=min(4, len(decided)), replace=False) if decided else []):
+        try:
+            r1 = np.asarray(_call(spec, np.ascontiguousarray(P[i:i + 1])))
+            ev["predicate_calls"] += 1
+            ev["single_point_batches"] = ev.get("single_point_batches", 0) + 1
+            if r1.shape != (1,) or bool(r1[0]) != truth[i]:
+                viol.append({"key": {"shape": kind, "kind": "single-point-batch"}, "err": None,
+                             "msg": "points_in_%s: batch of the single point %s gives %s (shape %s), truth %s" % (kind, P[i].tolist(), r1.tolist(), r1.shape, truth[i])})
+        except Exception as e:  # noqa: BLE001
+            viol.append({"key": {"shape": kind, "kind": "exception", "exc": type(e).__name__, "where": "single-point batch"}, "err": None,
+                         "msg": "points_in_%s raised %s on a batch of one point" % (kind, type(e).__name__)})
     # --- cross checks (a sample of the batch)
     sel = rng.choice(len(P), size=min(40, len(P)), replace=False)
     col = None
